@@ -194,6 +194,30 @@ class C15(core.Check):
                 unchanged = got == ast.dump(ast_parse(src))
                 sites.append(site(False, facts, fail="not_replaced" if unchanged else "wrong_replacement",
                                   replaced_flag=rq.replaced, marks=got.count("MARK")))
+        # multi-step: replace a whole class by a fresh (un-annotated) one, re-annotate, then address inside the new class
+        from doctrans.ast_utils import annotate_ancestry
+
+        for cname in ("A", "B"):
+            t1 = ast_parse(src)
+            if resolve(t1, [cname]) is None or not isinstance(resolve(t1, [cname]), ast.ClassDef):
+                continue
+            first = cname
+            idx_first = next((k for k, i in enumerate(case["items"]) if ITEMS[i][0] == first), None)
+            before = ">".join(ITEMS[i][0] for i in case["items"][:idx_first]) if idx_first is not None else "-"
+            facts = {"op": "replace_reannotate_replace", "path": cname, "before": before}
+            new_cls = ast.parse("class NEWC(object):\n    attr2: int = 1\n\n    def m2(self, a, b=2):\n        return a\n").body[0]
+            try:
+                rq = RewriteAtQuery(search=[cname], replacement_node=new_cls)
+                t1 = rq.visit(t1)
+                annotate_ancestry(t1)
+                want = resolve(t1, ["NEWC", "attr2"])
+                got = find_in_ast(["NEWC", "attr2"], t1)
+                rq2 = RewriteAtQuery(search=["NEWC", "attr2"], replacement_node=marker_for(want))
+                out = ast.dump(rq2.visit(t1))
+                ok = rq.replaced and want is not None and got is want and rq2.replaced and out.count("MARK") == 1
+                sites.append(site(ok, facts, fail="multi_step", first_replaced=rq.replaced, found=got is want, second_replaced=rq2.replaced))
+            except Exception as e:
+                sites.append(site(False, facts, fail="raise", **core.exc_obs(e)))
         return (sites, [order], [order, [s["ok"] for s in sites]],
                 {"lookups": len(PATHS), "existing_paths": len(existing), "nt_pairs": [order + "|" + ".".join(p) for p in existing]})
 
